@@ -128,6 +128,10 @@ static void item_byte(uint64_t ci)
 			check_pair(cd, 2, Cd, 2, 3, 1);
 			check_pair(cdc, 3, s2, 1, 0, 1);
 			check_pair(cdc, 3, dc, 2, 0, 1);
+			/* two-byte needle "cd": after a failed partial match ("ccd") and behind the bit-5 twin of its first byte */
+			char ccd[4] = { (char)c, (char)c, (char)d, 0 }, tcd[4] = { (char)(c ^ 0x20), (char)c, (char)d, 0 }, td[4] = { (char)(c ^ 0x20), (char)d, 0 };
+			check_pair(ccd, 3, cd, 2, 0, 1);
+			if ((c ^ 0x20) != 0) { check_pair(tcd, 3, cd, 2, 0, 1); check_pair(td, 2, cd, 2, 0, 1); }
 		}
 	}
 	flush_pairs();
@@ -137,7 +141,7 @@ static void item_byte(uint64_t ci)
 
 /* ---- part B: strings over S */
 static const char S[] = { 'a', 'A', 'b', 'B', 'Z', '[', '{', '@', '`' };   /* '[' '{' and '@' '`' differ by 0x20 but are no letters; 'Z' < '[' < 'a' separates lower- from upper-folding */
-static int NSYM = 8, SLEN = 3;
+static int NSYM = 8, SLEN = 3, HLEN = 0;      /* HLEN > SLEN: first strings up to HLEN, those longer than SLEN only against needles of length <= 3 */
 static uint64_t n_strings(int A, int L) { uint64_t n = 0, p = 1; for (int l = 0; l <= L; l++) { n += p; p *= A; } return n; }
 static int nth_string(uint64_t idx, char *out)     /* shortlex order; returns the length */
 {
@@ -150,16 +154,16 @@ static int nth_string(uint64_t idx, char *out)     /* shortlex order; returns th
 static void item_strings(uint64_t i1)
 {
 	char s1[16], s2[16]; int l1 = nth_string(i1, s1);
-	uint64_t total = n_strings(NSYM, SLEN);
+	uint64_t total = n_strings(NSYM, l1 > SLEN ? 3 : SLEN);
 	memset(&rep, 0, sizeof rep);
 	for (uint64_t i2 = 0; i2 < total; i2++) {
 		int l2 = nth_string(i2, s2);
-		check_pair(s1, l1, s2, l2, SLEN + 1, l2 <= 3);
+		check_pair(s1, l1, s2, l2, l1 > SLEN ? 1 : SLEN + 1, l2 <= 3);
 	}
 	flush_pairs();
 	mc_nontrivial(0x1000000 + i1);
 	char sh[64]; show(sh, s1);
-	mc_observe("string \"%s\" against all %llu strings of length <= %d over {a A b B Z [ { @ `}[0..%d)", sh, (unsigned long long)total, SLEN, NSYM);
+	mc_observe("string \"%s\" against all %llu strings of length <= %d over {a A b B Z [ { @ `}[0..%d)", sh, (unsigned long long)total, l1 > SLEN ? 3 : SLEN, NSYM);
 }
 
 /* ---- part C: rtrim */
@@ -309,10 +313,12 @@ int main(int argc, char **argv)
 		if (!strncmp(argv[i + 1], "slen=", 5)) SLEN = atoi(argv[i + 1] + 5);
 		if (!strncmp(argv[i + 1], "nsym=", 5)) NSYM = atoi(argv[i + 1] + 5);
 		if (!strncmp(argv[i + 1], "rtmax=", 6)) RTMAX = atoi(argv[i + 1] + 6);
+		if (!strncmp(argv[i + 1], "hlen=", 5)) HLEN = atoi(argv[i + 1] + 5);
 	}
 	if (NSYM > (int)sizeof S) NSYM = sizeof S;
 	build_cat();
-	NB_ = n_strings(NSYM, SLEN); NC_ = RTMAX + 1;
+	if (HLEN < SLEN) HLEN = SLEN;
+	NB_ = n_strings(NSYM, HLEN); NC_ = RTMAX + 1;
 	struct mc_config cfg = { .property = "C41", .n_items = 256 + NB_ + NC_ + N_SN + ncat, .item = item };
 	return mc_main(argc, argv, &cfg);
 }
